@@ -158,9 +158,13 @@ def main(argv=None):
     # ---- canaries / vacuity ------------------------------------------------------
     canaries = [e for e in obligations if e["kind"] == "canary"]
     bad_canaries = [e for e in canaries if e["refuted"] == 0]
-    real_obl = [e for e in obligations if e["kind"] != "canary"]
+    # bounded stand-ins are reported separately and never counted as proved; a failing one is a concrete refutation
+    bounded_entries = [e for e in obligations if e["kind"] == "bounded"]
+    for e in bounded_entries:
+        bounded.append({"obligation": e["name"], "passed": e["proved"] == e["instances"], "instances": e["instances"]})
+    real_obl = [e for e in obligations if e["kind"] not in ("canary", "bounded")]
     refuted = [e for e in refuted if e["kind"] != "canary"]
-    proved = [e for e in proved if e["kind"] != "canary"]
+    proved = [e for e in proved if e["kind"] not in ("canary", "bounded")]
 
     known = load_known(prop)
     known_hit = []
